@@ -6,7 +6,7 @@ import z3
 from vf.engine import terms as T
 from vf.engine.values import Sym, SArr, SSeq, SList, SObj, Opaque, wrap, term_of, is_scalar, PyRaise, ClassRef
 from vf.contract import Contract, contract
-from ._util import D, real, integer, sym_array, fresh_index
+from ._util import D, real, integer, sym_array, fresh_index, same_data
 from ._objects import DepFn
 from ._model import J, structures, structure_label
 
@@ -311,7 +311,7 @@ class CondFit(Contract):
             return
         for j, c in enumerate(copies):
             ok = len(c.fits) == 1
-            cx.oblige(f"post.per_interval_fit.{j}", ok and c.fits[0][0][0] is self.data[j] and c.fits[0][0][1] == "some_method" and c.fits[0][0][2] == "some_weights", "post",
+            cx.oblige(f"post.per_interval_fit.{j}", ok and same_data(cx, c.fits[0][0][0], self.data[j]) and c.fits[0][0][1] == "some_method" and c.fits[0][0][2] == "some_weights", "post",
                       "copy j fitted to exactly the observations of interval j with the requested method and weights")
         dpi = self.obj.fields.get("distributions_per_interval")
         cx.oblige("post.distributions_per_interval", isinstance(dpi, list) and len(dpi) == m and all(a is b for a, b in zip(dpi, copies)), "post")
